@@ -20,7 +20,7 @@
   Condvar}, the OS scheduler and real time are assumed to behave like the model's mutexes,
   condvars and `timeout` steps (see `assumptions` in tools/props.py).
 -/
-import QV.Proofs.PoolTasks
+import QV.Proofs.PoolProgress
 
 namespace QV.C29
 open QV QV.Pool
@@ -205,6 +205,145 @@ theorem C29_spawn_rejected_when_group_shutting (cfg : Cfg) (s s' : State) (t k :
     cases tg <;> simp at hstep
     subst hstep
     simp [State.setT, setStatus]
+
+/-- **Nothing is accepted once shutdown is complete.**  In every reachable state with
+    `thread_count = 0` (what `await_shutdown` waits for), the pool either has its flag set or has
+    no available worker: every later `submit` / `submit_or_spawn` check fails to queue, and the
+    fallback `start_oneshot` is refused by the group's flag (`C29_spawn_rejected_when_group_shutting`). -/
+theorem C29_no_queueing_when_complete (cfg : Cfg) (hf : cfg.fixed = true) (s : State) (hr : Reachable cfg s)
+    (h0 : s.threadCount = 0) : s.pShutting = true ∨ s.available ≤ s.queue.length := by
+  have hc := cinv_reachable hf hr
+  have hlive : s.threads.countP isLive = 0 := by rw [← hc.live]; exact h0
+  have hreg : s.threads.countP isReg ≤ s.threads.countP isLive :=
+    List.countP_mono_left (fun x _ hx => by cases x <;> simp_all [isReg, isLive])
+  by_cases hs : 0 < s.stale
+  · exact Or.inl (hc.stale hs)
+  · right
+    have := hc.avail
+    omega
+
+/-! ### deadlock-freedom -/
+
+/-- a thread that is legitimately waiting: nothing the pool owes it is outstanding -/
+def Parked (s : State) : Local → Prop
+  | .idle | .exited => True
+  -- an idle permanent worker: no work, no shutdown
+  | .wWait .perm => s.queue = [] ∧ s.pShutting = false
+  -- a blocked `submit`: no worker is available, no shutdown
+  | .subWait _ => s.pShutting = false ∧ s.available ≤ s.queue.length
+  -- `await_shutdown`: shutdown is not complete
+  | .awWait => ¬ (s.gShutting = true ∧ s.threadCount = 0)
+  | _ => False
+
+/-- **Statement of deadlock-freedom** (proved below as `C29_progress`): in every reachable state either some step that is not
+    a pure environment step (arrival, API call, spurious wake-up) is enabled — timeouts count as
+    enabled steps: time passes — or every thread is idle, has exited, or is waiting legitimately
+    (so no wake-up has been lost). -/
+def C29_progress_full : Prop :=
+  ∀ (cfg : Cfg), cfg.fixed = true → ∀ s, Reachable cfg s →
+    Enabled cfg s ∨ ∀ (t : Nat) (l : Local), s.threads[t]? = some l → Parked s l
+
+theorem b2n_eq_one {b : Bool} (h : b2n b = 1) : b = true := by cases b <;> simp_all
+theorem b2n_eq_zero {b : Bool} (h : b2n b = 0) : b = false := by cases b <;> simp_all
+
+/-- the environment assumption on `ThreadPool::shut_down` is maintained by the model's call guards:
+    a pool shutter inside its group section still finds the pool registered -/
+theorem C29_pool_shutter_finds_pool (cfg : Cfg) (hf : cfg.fixed = true) (s : State) (hr : Reachable cfg s)
+    (t : Nat) (hg : s.threads[t]? = some Local.pshInG) : s.hasPool = true := by
+  have hw := winv_reachable hf hr
+  have hpos := countP_pos_get isPshEarly hg
+  simp only [isPshEarly, ↓reduceIte] at hpos
+  rcases hw.f4 with h | ⟨h, _⟩
+  · omega
+  · exact b2n_eq_one h
+
+/-- **No deadlock on the mutexes.**  In every reachable state in which some thread holds or is
+    waiting for a mutex, a non-environment step is enabled: the holder of the pool mutex can always
+    finish its critical section, the holder of the group mutex can finish or needs only the pool
+    mutex, and a free mutex can be taken (mutual exclusion + lock order group → pool). -/
+theorem C29_no_lock_deadlock (cfg : Cfg) (hf : cfg.fixed = true) (s : State) (hr : Reachable cfg s)
+    (t : Nat) (l : Local) (hg : s.threads[t]? = some l)
+    (hl : wantsG l = true ∨ wantsP l = true ∨ holdsP l = true ∨ holdsG l = true) : Enabled cfg s :=
+  lock_progress cfg s (cinv_reachable hf hr) (fun u hu => C29_pool_shutter_finds_pool cfg hf s hr u hu) t l hg hl
+
+/-- threads that are running a task, or whose timed wait can time out, can always step too -/
+theorem C29_runner_or_timed_waiter_can_step (cfg : Cfg) (s : State) (t : Nat) (l : Local)
+    (hg : s.threads[t]? = some l)
+    (hl : (∃ w k, l = .wRun w k) ∨ (∃ w k, l = .wRunning w k) ∨ (∃ k, l = .auxStart k) ∨
+          (∃ k, l = .auxRunning k) ∨ l = .wWait .aux ∨ l = .rhWait) : Enabled cfg s := by
+  have mk : ∀ lab : Label, lab.isEnv = false → (∃ s', next cfg s lab = some s') → Enabled cfg s :=
+    fun lab he ⟨s', h⟩ => ⟨lab, s', he, h⟩
+  rcases hl with ⟨w, k, rfl⟩ | ⟨w, k, rfl⟩ | ⟨k, rfl⟩ | ⟨k, rfl⟩ | rfl | rfl
+  · exact mk (.run t) rfl (by simp [next, nextRun, hg])
+  · exact mk (.fin t) rfl (by simp [next, nextFin, hg])
+  · exact mk (.run t) rfl (by simp [next, nextRun, hg])
+  · exact mk (.fin t) rfl (by simp [next, nextFin, hg])
+  · exact mk (.timeout t) rfl (by simp [next, nextTimeout, hg])
+  · exact mk (.timeout t) rfl (by simp [next, nextTimeout, hg])
+
+/-- the only states without an enabled non-environment step consist of threads that are idle,
+    exited, or blocked on a condition variable without a timeout -/
+theorem C29_stuck_states_are_condvar_waits (cfg : Cfg) (hf : cfg.fixed = true) (s : State) (hr : Reachable cfg s)
+    (hstuck : ¬ Enabled cfg s) (t : Nat) (l : Local) (hg : s.threads[t]? = some l) :
+    l = .idle ∨ l = .exited ∨ l = .wWait .perm ∨ (∃ k, l = .subWait k) ∨ l = .awWait := by
+  have h1 := fun h => hstuck (C29_no_lock_deadlock cfg hf s hr t l hg h)
+  have h2 := fun h => hstuck (C29_runner_or_timed_waiter_can_step cfg s t l hg h)
+  cases l <;> simp [wantsG, wantsP, holdsP, holdsG] at h1 h2 ⊢
+  case wWait w => cases w <;> simp at h2 ⊢
+
+theorem count_zero_of_stuck (cfg : Cfg) (hf : cfg.fixed = true) (s : State) (hr : Reachable cfg s)
+    (hstuck : ¬ Enabled cfg s) (p : Local → Bool)
+    (hp : p .idle = false ∧ p .exited = false ∧ p (.wWait .perm) = false ∧ (∀ k, p (.subWait k) = false) ∧ p .awWait = false) :
+    s.threads.countP p = 0 := by
+  rw [List.countP_eq_zero]
+  intro a ha hw
+  obtain ⟨u, hu⟩ := List.mem_iff_getElem?.mp ha
+  rcases C29_stuck_states_are_condvar_waits cfg hf s hr hstuck u a hu with rfl | rfl | rfl | ⟨k, rfl⟩ | rfl
+  · rw [hp.1] at hw; cases hw
+  · rw [hp.2.1] at hw; cases hw
+  · rw [hp.2.2.1] at hw; cases hw
+  · rw [hp.2.2.2.1 k] at hw; cases hw
+  · rw [hp.2.2.2.2] at hw; cases hw
+
+/-- **Deadlock-freedom (full statement proved).**  Under every interleaving, in every reachable
+    state of the repaired code, either some step that is not a pure environment step is enabled,
+    or every thread is idle, has exited, or is waiting *legitimately*: a permanent worker with an
+    empty queue and no shutdown; a blocked `submit` with no available worker and no shutdown; an
+    awaiter while shutdown is not complete.  No wake-up is ever lost, and no lock cycle exists.
+    Assumptions (see tools/props.py): Mesa condition variables whose `notify_one` wakes a waiter
+    if there is one; timeouts eventually fire (they are ordinary steps); tasks terminate. -/
+theorem C29_progress : C29_progress_full := by
+  intro cfg hf s hr
+  by_cases hstuck : Enabled cfg s
+  · exact Or.inl hstuck
+  right
+  intro t l hg
+  have hc := cinv_reachable hf hr
+  have hw := winv_reachable hf hr
+  have zero := count_zero_of_stuck cfg hf s hr hstuck
+  have hAwake : s.threads.countP isAwake = 0 := zero isAwake (by simp [isAwake])
+  have hSA : s.threads.countP isSubAwake = 0 := zero isSubAwake (by simp [isSubAwake])
+  have hSM : s.threads.countP isShMid = 0 := zero isShMid (by simp [isShMid])
+  have hq : s.queue = [] := List.eq_nil_of_length_eq_zero (by have := hc.queue; omega)
+  have b1 := b2n_le_one s.pShutting
+  have b2 := b2n_le_one s.gShutting
+  rcases C29_stuck_states_are_condvar_waits cfg hf s hr hstuck t l hg with rfl | rfl | rfl | ⟨k, rfl⟩ | rfl
+  · trivial
+  · trivial
+  · have hpos := countP_pos_get isWWait hg
+    simp only [isWWait, ↓reduceIte] at hpos
+    refine ⟨hq, b2n_eq_zero ?_⟩
+    rcases hw.w1 with h | h <;> omega
+  · have hpos := countP_pos_get isSubWait hg
+    simp only [isSubWait, ↓reduceIte] at hpos
+    have hps : b2n s.pShutting = 0 := by rcases hw.w2 with h | h <;> omega
+    refine ⟨b2n_eq_zero hps, ?_⟩
+    rcases hw.w3 with h | h | h <;> omega
+  · have hpos := countP_pos_get isAwWait hg
+    simp only [isAwWait, ↓reduceIte] at hpos
+    intro ⟨h1, h2⟩
+    have : b2n s.gShutting = 1 := b2n_of_true h1
+    rcases hw.w4 with h | h | h | h <;> omega
 
 /-! ### the defect repaired by a7b63db (D11) -/
 
